@@ -252,6 +252,12 @@ class CombinedDataHandler:
 
         non_modeled_units_list = [units_blocklisted, units_with_zero_baseline, units_with_strange_turnout_factor]
 
+        # units that are excluded from the model anyway must not influence which other units are outliers
+        excluded_units = pd.concat([units_blocklisted, units_with_zero_baseline]).geographic_unit_fips
+        reporting_units = reporting_units[~reporting_units.geographic_unit_fips.isin(excluded_units)].reset_index(
+            drop=True
+        )
+
         if fit_turnout_outlier_model and reporting_units.shape[0] > self.n_minimum_for_outlier_detection_model:
             units_with_strange_turnout_factor_modeled = self._fit_outlier_detection_model(
                 reporting_units, "turnout_factor", outlier_z_threshold
